@@ -181,7 +181,9 @@ pub trait AsyncReadExt: AsyncRead {
         &mut self,
         mut buf: t_alloc!(Vec, u8, A),
     ) -> BufResult<usize, t_alloc!(Vec, u8, A)> {
-        loop_read_to_end!(buf, total: usize, loop self.read(buf.slice(total..)))
+        // Append after the existing content of the buffer.
+        let start = buf.len();
+        loop_read_to_end!(buf, total: usize, loop self.read(buf.slice(start + total..)))
     }
 
     /// Read the exact number of bytes required to fill the vectored buf.
@@ -326,7 +328,9 @@ pub trait AsyncReadAtExt: AsyncReadAt {
         mut buffer: t_alloc!(Vec, u8, A),
         pos: u64,
     ) -> BufResult<usize, t_alloc!(Vec, u8, A)> {
-        loop_read_to_end!(buffer, total: u64, loop self.read_at(buffer.slice(total as usize..), pos + total))
+        // Append after the existing content of the buffer.
+        let start = buffer.len();
+        loop_read_to_end!(buffer, total: u64, loop self.read_at(buffer.slice(start + total as usize..), pos + total))
     }
 
     /// Like [`AsyncReadExt::read_vectored_exact`], expect that it reads at a
